@@ -841,6 +841,45 @@ Section Param.
     - apply radical_pos_iff in H0. lra.
   Qed.
 
+  (* in the snapped region the arc is the half ellipse about the chord midpoint:
+     point(0) + point(1) = start + end, so point(1) misses end by as much as point(0)
+     misses start *)
+  Lemma radical_zero_cp : radical = 0 -> cp = (0, 0).
+  Proof.
+    intros Hk. rewrite cp_eq, Hk. unfold arc_cp. destruct (Bool.eqb large sweep); rsimp;
+      apply cplx_eq; cbn [fst snd]; ring.
+  Qed.
+  Lemma cos_sin_pm_pi x d : d = 180 \/ d = -180 ->
+    cos ((x + 1 * d) * PI / 180) = - cos (x * PI / 180) /\ sin ((x + 1 * d) * PI / 180) = - sin (x * PI / 180).
+  Proof.
+    intros [->| ->].
+    - replace ((x + 1 * 180) * PI / 180) with (x * PI / 180 + PI) by field.
+      rewrite neg_cos, neg_sin. split; reflexivity.
+    - replace ((x + 1 * -180) * PI / 180) with (x * PI / 180 + - PI) by field.
+      rewrite cos_plus, sin_plus, cos_neg, sin_neg, cos_PI, sin_PI. split; ring.
+  Qed.
+  Lemma snapped_symmetric : radical = 0 ->
+    fst (arc_point NumR NumTR P 0) + fst (arc_point NumR NumTR P 1) = fst start + fst end_ /\
+    snd (arc_point NumR NumTR P 0) + snd (arc_point NumR NumTR P 1) = snd start + snd end_.
+  Proof.
+    intros Hk.
+    assert (Hd : a_delta P = 180 \/ a_delta P = -180).
+    { destruct arc_delta_cases as [[_ H]|[H _]]; [|lra]. rewrite H. destruct sweep; auto. }
+    rewrite !arc_point_fst, !arc_point_snd.
+    destruct (cos_sin_pm_pi (a_theta P) (a_delta P) Hd) as [-> ->].
+    replace ((a_theta P + 0 * a_delta P) * PI / 180) with (a_theta P * PI / 180) by field.
+    rewrite center_eq, (radical_zero_cp Hk). cbn [fst snd]. split; field.
+  Qed.
+  Lemma arc_point1_snapped : 0 < radicand <= atol8 NumR -> arc_point NumR NumTR P 1 <> end_.
+  Proof.
+    intros H E. apply (arc_point0_snapped H).
+    assert (Hk : radical = 0).
+    { destruct (Rle_lt_or_eq_dec _ _ radical_ge0) as [Hp|Hz]; [|auto].
+      apply radical_pos_iff in Hp. lra. }
+    destruct (snapped_symmetric Hk) as [A B]. rewrite E in A, B.
+    apply cplx_eq; lra.
+  Qed.
+
   Lemma arc_delta_range : Rabs (a_delta P) <= 360.
   Proof.
     destruct arc_delta_cases as [[_ ->]|[_ [H|[H|[H|H]]]]].
